@@ -325,7 +325,48 @@ def r5_read_loop(ctx):
     ctx.floor(rule, sniff_total, 2, "content sniffs in the Ribbit read loop")
 
 
+def r6_cdn_download(ctx):
+    rule = "C13.R6"
+    ctx.rule(rule, "CdnClient cache-then-fetch-then-store: lookup first, hit short-circuits, only a successful download is stored, and it is stored")
+    n = 0
+    for item in ("download", "download_archive_index"):
+        bs = [b for b in ctx.prog.find(self_ty=r"\bCdnClient\b", item=item, closure=True) if b.coroutine and b.krate == "cascette_protocol"]
+        if not ctx.anchor(rule, bs, "CdnClient::%s (async body)" % item):
+            continue
+        b = bs[0]
+        ctx.saw(b)
+        get = b.calls_matching(r"ProtocolCache::(get_bytes|get)$")
+        store = b.calls_matching(r"ProtocolCache::(store_bytes|store_with_ttl|store)$")
+        net = b.calls_matching(r"CdnClient::download_with_retry$")
+        if not (ctx.anchor(rule, get, "cache lookup in %s" % item) and ctx.anchor(rule, store, "cache store in %s" % item) and ctx.anchor(rule, net, "network download in %s" % item)):
+            continue
+        n += 1
+        g, st, nw = get[0], store[0], net[0]
+        okret = set(assigns_variant(b, "Ok"))
+        rets = set(b.return_blocks())
+        ok_e, err_e, land = result_edges(b, nw)
+        ctx.check(b.dominates(g.bb, nw.bb), rule, [b.id, "lookup-first"], "cache lookup dominates the download",
+                  "CdnClient::%s downloads without consulting the cache first" % item, nw.loc(), sample={"lookup": g.loc(), "download": nw.loc()})
+        ctx.check(bool(b.reachable(b.succ[g.bb], avoid={nw.bb}) & okret), rule, [b.id, "hit-short-circuits"], "a hit returns without network traffic",
+                  "CdnClient::%s has no path serving a cache hit without downloading" % item, g.loc())
+        if err_e is not None:
+            ctx.check(st.bb not in b.reachable([err_e]), rule, [b.id, "err-not-stored"], "a failed download is never stored",
+                      "CdnClient::%s stores into the cache on the download's error edge" % item, st.loc())
+        start = [ok_e] if ok_e is not None else b.succ[land]
+        o2, e2, _ = result_edges(b, st)
+        leak = b.reachable(start, avoid={st.bb} | ({err_e} if err_e is not None else set())) & rets
+        ctx.check(not leak, rule, [b.id, "ok-is-stored"], "a successful download passes the cache store before it is returned",
+                  "CdnClient::%s returns downloaded bytes without storing them" % item, nw.loc())
+        if len(st.args) >= 3 and op_local(st.args[2]) is not None:
+            sl = Slice(b, [op_local(st.args[2])], transparent=True)
+            rl, _ = result_local(b, nw)
+            ctx.check(rl in sl.locals or nw in sl.calls, rule, [b.id, "stored-data"], "the stored bytes are the downloaded bytes",
+                      "CdnClient::%s stores bytes that do not derive from the download" % item, st.loc())
+    ctx.floor(rule, n, 2, "CdnClient download routines with a cache")
+
+
 def run(ctx):
+    r6_cdn_download(ctx)
     r1_failover(ctx)
     r2_r3_cache(ctx)
     r4_classification(ctx)
